@@ -35,6 +35,8 @@ class World:
         self.default_group = None  # group used when code runs outside any task
         self.stats: dict[str, int] = {}
         self.eval_hook = None
+        self.fds: dict[int, str] = {}
+        self.mtimes: dict[str, float] = {}
 
     def point(self, kind, detail=""):
         s = self.sched
@@ -210,6 +212,8 @@ class SimFileIO(io.FileIO):
     def write(self, b):
         WORLD.point("write", f"{self._sim_base}:{len(b)}")
         WORLD.stat("write_calls")
+        if WORLD.clock is not None:
+            WORLD.mtimes[self._sim_base] = WORLD.clock.time()
         n = super().write(b)
         if n != len(b):
             raise HarnessError("short write on scratch file system")
@@ -362,6 +366,94 @@ class OsProxy:
     def truncate(self, path, length):
         WORLD.point("truncate", _base(path))
         return os.truncate(path, length)
+
+    # low-level descriptor I/O (os.open / os.write / ...): same scheduling and crash points
+    def open(self, path, flags, mode=0o777, *a, **k):
+        WORLD.point("openat", f"{_base(path)}:fd")
+        WORLD.seam("open", path)
+        fd = os.open(path, flags, mode, *a, **k)
+        WORLD.fds[fd] = _base(path)
+        return fd
+
+    def write(self, fd, data):
+        if fd in WORLD.fds:
+            WORLD.point("write", f"{WORLD.fds[fd]}:{len(data)}")
+            WORLD.stat("write_calls")
+            if WORLD.clock is not None:
+                WORLD.mtimes[WORLD.fds[fd]] = WORLD.clock.wall
+        return os.write(fd, data)
+
+    def read(self, fd, n):
+        if fd in WORLD.fds:
+            WORLD.point("read", WORLD.fds[fd])
+        return os.read(fd, n)
+
+    def fsync(self, fd):
+        if fd in WORLD.fds:
+            WORLD.point("fsync", WORLD.fds[fd])
+        return os.fsync(fd)
+
+    def close(self, fd):
+        if fd in WORLD.fds:
+            WORLD.point("close", WORLD.fds.pop(fd))
+        return os.close(fd)
+
+    def stat(self, path, *a, **k):
+        WORLD.point("stat", _base(path))
+        return _SimStat(os.stat(path, *a, **k), _base(path))
+
+    @property
+    def path(self):
+        return _OS_PATH
+
+
+class _SimStat:
+    """os.stat_result whose modification time is the simulated one (see OsPathProxy)."""
+
+    def __init__(self, real, base):
+        self._real = real
+        self._base = base
+
+    def __getattr__(self, name):
+        if name in ("st_mtime", "st_ctime") and self._base in WORLD.mtimes:
+            return WORLD.mtimes[self._base]
+        if name in ("st_mtime_ns", "st_ctime_ns") and self._base in WORLD.mtimes:
+            return int(WORLD.mtimes[self._base] * 1e9)
+        return getattr(self._real, name)
+
+    def __getitem__(self, i):
+        return self._real[i]
+
+
+class OsPathProxy:
+    """os.path with simulated file times: a file's modification time is the simulated wall clock
+    at its last write through a seam, so equal or backward-going timestamps occur (coarse
+    file-system granularity, stepped clocks)."""
+
+    def __getattr__(self, name):
+        return getattr(os.path, name)
+
+    def exists(self, p):
+        WORLD.point("stat", _base(p))
+        return os.path.exists(p)
+
+    def isfile(self, p):
+        WORLD.point("stat", _base(p))
+        return os.path.isfile(p)
+
+    def getsize(self, p):
+        WORLD.point("stat", _base(p))
+        return os.path.getsize(p)
+
+    def getmtime(self, p):
+        WORLD.point("stat", _base(p))
+        real = os.path.getmtime(p)
+        return WORLD.mtimes.get(_base(p), real)
+
+    getctime = getmtime
+
+
+_OS_PATH = OsPathProxy()
 
 
 class AtexitProxy:
